@@ -316,6 +316,30 @@ def getstr(k):
     return "getstr %s %s" % (hexs(k), H.hk(k + b"\0"))
 
 
+def glue_ops(big=False):
+    """the formatted put with EVERY formatted length up to 2100 (a private fast-path buffer of any
+    size below that has its boundary in here) and around the DYNAMIC_VSPRINTF sizes, read back with
+    getstr and get"""
+    from checks.c05 import VS_SWEEP, vs_value
+    ops = ["new %d" % H.memsize(200)]
+    for i, n in enumerate(VS_SWEEP if big else [x for x in VS_SWEEP if x <= 2100 or x in (4095, 4096, 4097)]):
+        k = b"f%d" % (i % 3)
+        ops += [putstrf(k, vs_value(n, i)), getstr(k)]
+        if i % 50 == 49:
+            ops += ["walk", "check", "drop"]
+    ops += ["walk", "check", "drop", "end"]
+    return ops
+
+
+def glue_streams(check, prop="C12"):
+    """streams over the convenience entry points, for the map-level checks (C06) as well"""
+    from translator import harr_layout
+    H.set_layout(harr_layout.extract(vlib.REPO))
+    oracle = judge_sync(ASPECTS[prop])
+    return [Stream("hasharr:putstrf-lengths", glue_ops(check.tier != "quick"), history=True, module="harrmem", harness="harrmem",
+                   lib="libqw.a", oracle=oracle)]
+
+
 def corpus_ops(prop):
     d = os.path.join(vlib.ROOT, "corpus", prop)
     out = []
@@ -440,6 +464,7 @@ def harr_streams(check, prop):
                     "attach", "scribble", "check", "drop"]
         ops.append("end")
         sts.append(S("copies-and-ledger", ops))
+        sts.append(S("putstrf-lengths", glue_ops(big)))
         ops = []
         for hno in range(25 if not big else 250):
             cap = rng.choice([1, 2, 3, 5, 9, 40])
